@@ -5,8 +5,11 @@ patch="$1"; prop="$2"; tier="${3:-quick}"
 if [ -n "$(git -C /repo status --porcelain)" ]; then echo "/repo not clean"; exit 9; fi
 git -C /repo apply "$patch" || { echo "patch does not apply"; exit 9; }
 start=$(date +%s)
+# evidence written while a seeded change is applied must never be committed
+cp "/verif/evidence/$prop.json" "/tmp/trymutant.$$.ev" 2>/dev/null
 /verif/check.sh "$prop" "$tier" > /tmp/trymutant.$$.log 2>&1
 code=$?
+[ -f "/tmp/trymutant.$$.ev" ] && mv "/tmp/trymutant.$$.ev" "/verif/evidence/$prop.json"
 end=$(date +%s)
 git -C /repo apply -R "$patch"
 git -C /repo checkout -- . 
